@@ -286,6 +286,16 @@ func logMode(seed uint64, rounds int) {
 				if st != 200 {
 					ok = false
 				}
+				// the same job addressed by another spelling of its id that the API accepts (upper case, urn:uuid:, braces)
+				if logs != nil {
+					spell := []string{strings.ToUpper(jr.id), "urn:uuid:" + jr.id, "{" + jr.id + "}"}[(round+j)%3]
+					l2, st2 := a.Logs(spell, tg.name)
+					rec["alt_id"], rec["alt_id_status"] = spell, st2
+					if st2 == 200 && l2 != nil && (l2.Stdout != logs.Stdout || l2.Stderr != logs.Stderr) {
+						rec["alt_id_differs"] = fmt.Sprintf("stdout %d vs %d bytes, stderr %d vs %d bytes", len(l2.Stdout), len(logs.Stdout), len(l2.Stderr), len(logs.Stderr))
+						ok = false
+					}
+				}
 				rec["ok"] = ok
 				emit(rec)
 			}
